@@ -182,11 +182,11 @@ def obligations(tier, seed):
     obs = []
     if tier == "quick":
         parts = [{"schema": "list", "doc": 7}, {"schema": "list", "doc": 1}, {"schema": "list", "doc": 3},
-                 {"schema": "basic", "doc": 1}, {"schema": "docmarks", "doc": 0}]
+                 {"schema": "basic", "doc": 1}, {"schema": "docmarks", "doc": 0}, {"schema": "at", "doc": 0}]
         kmax = 2
     else:
         parts = [{"schema": sn, "doc": i} for (sn, i) in [("list", 1), ("list", 3), ("list", 5), ("list", 7), ("list", 11), ("basic", 1),
-                                                          ("strict", 1), ("table", 0), ("docmarks", 0), ("iso", 3)]]
+                                                          ("strict", 1), ("table", 0), ("docmarks", 0), ("iso", 3), ("at", 0), ("at", 1)]]
         kmax = 3
     T = 150 if tier == "quick" else 900
     for p in parts:
